@@ -254,6 +254,28 @@ static void svd_sweep(const Desc& d)
     }
 }
 
+// C16, repeated leading singular value (multiplicity `mult`): a single-vector Lanczos process finds further copies of a multiple
+// eigenvalue only through rounding errors; descriptor mode=svdmult;seed=S;mult=M;ncv=K
+static void mode_svdmult(const Desc& d)
+{
+    {
+        Line l("Reset");
+        l.str("desc", d.raw);
+        out().put(l);
+    }
+    Rng r((uint64_t) d.i("seed", 1) * 389 + 17);
+    const int m = 40 + r.below(20), n = 25;
+    const int mult = (int) d.i("mult", 5);
+    VecL s(n);
+    for (int i = 0; i < n; i++)
+        s[i] = i < mult ? 5.0L : 4.0L - 0.1L * (LD)(i - mult);
+    MatL U = rand_orth(m, r), V = rand_orth(n, r);
+    MatL A = U.leftCols(n) * s.asDiagonal() * V.transpose();
+    Desc dd = d;
+    dd.kv["rank"] = std::to_string(n);
+    svd_case<Eigen::MatrixXd>(dd, A, mult + 1, (int) d.i("ncv", 12), "dense", 0);
+}
+
 // C16, generated behaviours: one PartialSVDSolver driven along a call sequence exported by TLC from spec/MC_SVDSeq.tla
 // (tools/krygen.py): C<a> compute with argument set a, U<k> / V<k> matrix_U(k) / matrix_V(k), S singular_values().
 // After every call a reference object executes ONLY "compute(args of the most recent compute); the same call", and the
@@ -358,6 +380,52 @@ static void mode_svdseq(const Desc& d)
         svdseq_case<Eigen::Matrix<double, Eigen::Dynamic, Eigen::Dynamic, Eigen::RowMajor> >(d, A, ncomp, ncv, "rowmajor");
     else
         svdseq_case<Eigen::SparseMatrix<double> >(d, A, ncomp, ncv, "sparse");
+}
+
+// partial convergence with a REPEATED leading singular value (10, 10, 5, 4.5, 4.4, ...): the second copy of the tie emerges late and
+// lands between Ritz values that have already converged, so that the converged flags pass through [1,0,1] / [0,1,0]; every ncv in
+// 5..8 and every maxit in 0..24.  Whatever is returned must be consistent (the values are matched to the nearest reference value).
+static void svd_sweep_tie(const Desc& d)
+{
+    for (int rep = 0; rep < 2; rep++)
+    {
+        if (!case_selected(d, 2000 + rep, "svd"))
+            continue;
+        Rng r((uint64_t) d.i("seed", 1) * 57 + 9 + 7919ULL * (uint64_t) rep);
+        const int m = rep ? 30 : 60, n = rep ? 60 : 30;
+        const int mn = std::min(m, n);
+        VecL s(mn);
+        for (int i = 0; i < mn; i++)
+            s[i] = i < 2 ? 10.0L : (i == 2 ? 5.0L : 4.5L - 0.1L * (LD)(i - 3));
+        MatL U = rand_orth(m, r), V = rand_orth(n, r);
+        MatL AL0 = U.leftCols(mn) * s.asDiagonal() * V.leftCols(mn).transpose();
+        Eigen::MatrixXd A = AL0.cast<double>();
+        MatL AL = A.cast<LD>();
+        Eigen::JacobiSVD<MatL> ref(AL);
+        VecL sref = ref.singularValues();
+        for (int ncv = 5; ncv <= 8; ncv++)
+            for (int mx = 0; mx <= 24; mx++)
+            {
+                PartialSVDSolver<Eigen::MatrixXd> svd(A, 3, ncv);
+                ll nconv = (ll) svd.compute(mx, 1e-10);
+                Line l("Svd");
+                l.str("st", "dense").i("rm", 0).i("m", m).i("n", n).i("ncomp", 3).i("ncv", ncv).i("call", 1).i("maxit", mx).i("qtol", q((LD) 1e-10));
+                l.i("qn", q((LD) std::max(m, n))).i("rank", mn);
+                Eigen::VectorXd sv = svd.singular_values();
+                VecL near(sv.size());
+                for (int i = 0; i < (int) sv.size(); i++)
+                {
+                    int bi = 0;
+                    for (int j = 1; j < mn; j++)
+                        if (std::fabs(sref[j] - (LD) sv[i]) < std::fabs(sref[bi] - (LD) sv[i]))
+                            bi = j;
+                    near[i] = sref[bi];
+                }
+                svd_observe(l, svd, A, AL, near, 3, nconv);
+                l.i("fdg", 0).i("fnconv", nconv).i("inc_nconv", 0).i("inc_u1", 0).i("inc_v", 0).i("inc_u", 0).i("partial", 1);
+                out().put(l);
+            }
+    }
 }
 
 // =============================================================================================== C17: LOBPCG
@@ -479,13 +547,20 @@ static void mode_lobpcg(const Desc& d)
 
 // =============================================================================================== C15: Davidson
 template <typename OpType, typename MatT>
-static void davidson_case(const Desc& d, const MatL& AL0, const char* store, int nev, int rule, double tol, int maxit, int guess, Rng& r, int init, int maxs, int corr, bool twice = false)
+static void davidson_case(const Desc& d, const MatL& AL0, const char* store, int nev, int rule, double tol, int maxit, int guess, Rng& r, int init, int maxs, int corr, bool twice = false, int tri = 0)
 {
     typedef Eigen::MatrixXd Mat;
     Mat Ad = AL0.cast<double>();
     MatL AL = Ad.cast<LD>();
     const int n = (int) Ad.rows();
-    MatT Am = MatT(Ad.sparseView().template cast<double>());
+    // tri = 1 / 2: only the lower / upper triangle of the matrix handed to the wrapper is valid (the other one holds garbage); the wrapper
+    // is instantiated with the matching Uplo option and must never read the other triangle
+    Mat Ast = Ad;
+    for (int i = 0; i < n && tri; i++)
+        for (int j = 0; j < n; j++)
+            if ((tri == 1 && j > i) || (tri == 2 && j < i))
+                Ast(i, j) = 7.5 + 0.25 * ((i + 2 * j) % 5);
+    MatT Am = MatT(Ast.sparseView().template cast<double>());
     OpType op(Am);
     Line l("Dav");
     l.str("st", store).i("n", n).i("qn", q((LD) n)).i("nev", nev).i("rule", rule).i("qtol", q((LD) tol)).i("maxit", maxit).i("guess", guess).i("init", init).i("maxs", maxs).i("corr", corr);
@@ -662,10 +737,28 @@ static void mode_davidson(const Desc& d)
             maxs = 10 * nev;
             corr = nev - 1;
         }
-        if (c % 2 == 0)
-            davidson_case<DenseSymMatProd<double>, Eigen::MatrixXd>(d, A, "dense", nev, rule, tol, 300, guess, r, init, maxs, corr, twice);
-        else
-            davidson_case<SparseSymMatProd<double>, Eigen::SparseMatrix<double> >(d, A, "sparse", nev, rule, tol, 300, guess, r, init, maxs, corr, twice);
+        // wrappers: full storage with the default options, and one-triangle storage with the Lower / Upper option (dense, sparse col-/row-major)
+        switch (c % 8)
+        {
+            case 0: case 4:
+                davidson_case<DenseSymMatProd<double>, Eigen::MatrixXd>(d, A, "dense", nev, rule, tol, 300, guess, r, init, maxs, corr, twice);
+                break;
+            case 1: case 5:
+                davidson_case<SparseSymMatProd<double>, Eigen::SparseMatrix<double> >(d, A, "sparse", nev, rule, tol, 300, guess, r, init, maxs, corr, twice);
+                break;
+            case 2:
+                davidson_case<DenseSymMatProd<double, Eigen::Upper>, Eigen::MatrixXd>(d, A, "denseU", nev, rule, tol, 300, guess, r, init, maxs, corr, twice, 2);
+                break;
+            case 3:
+                davidson_case<SparseSymMatProd<double, Eigen::Upper>, Eigen::SparseMatrix<double> >(d, A, "sparseU", nev, rule, tol, 300, guess, r, init, maxs, corr, twice, 2);
+                break;
+            case 6:
+                davidson_case<SparseSymMatProd<double, Eigen::Lower, Eigen::RowMajor>, Eigen::SparseMatrix<double, Eigen::RowMajor> >(d, A, "sparseLr", nev, rule, tol, 300, guess, r, init, maxs, corr, twice, 1);
+                break;
+            default:
+                davidson_case<SparseSymMatProd<double, Eigen::Upper, Eigen::RowMajor>, Eigen::SparseMatrix<double, Eigen::RowMajor> >(d, A, "sparseUr", nev, rule, tol, 300, guess, r, init, maxs, corr, twice, 2);
+                break;
+        }
     }
 }
 
@@ -676,11 +769,15 @@ void dispatch(const Desc& d)
     if (mode == "svd")
     {
         mode_svd(d);
-        if (d.i("sweep", 1) && (!d.has("case") || d.i("case") >= 1000))
+        if (d.i("sweep", 1) && (!d.has("case") || (d.i("case") >= 1000 && d.i("case") < 2000)))
             svd_sweep(d);
+        if (d.i("sweep", 1) && (!d.has("case") || d.i("case") >= 2000))
+            svd_sweep_tie(d);
     }
     else if (mode == "svdseq")
         mode_svdseq(d);
+    else if (mode == "svdmult")
+        mode_svdmult(d);
     else if (mode == "lobpcg")
         mode_lobpcg(d);
     else if (mode == "davidson")
